@@ -31,6 +31,9 @@ def classes_for(scope, day):
     return cl
 
 
+EDGE_DAYS = [cal.days(2000, 1, 1), cal.days(2000, 1, 2), cal.days(2049, 12, 30), cal.days(2049, 12, 31)]
+
+
 def interesting_days(oracle, rnd, per_zone_random):
     days = set()
     lo, hi = cal.epoch_seconds(2000), cal.epoch_seconds(2050)
@@ -198,6 +201,8 @@ def main():
             cap = 18 if thorough else 16
             if len(days) > cap:
                 days = sorted(rnd.sample(days, cap))
+            # the edges of the supported years: their wall times need the caches of 1999 / 2050
+            days = sorted(set(days) | set(EDGE_DAYS))
             items.append(dict(name='%s/%s' % (scope, names[i]), scope=scope, index=i, zone=names[i], days=days))
     years = sorted(set(range(1999, 2051)))
     lem = kc.run_items([dict(name='year_lemma/%d' % y, year=y) for y in years], jobs=16, fn=zones.run_year_lemma)
@@ -249,7 +254,7 @@ def main():
         'dates': sum(r['days'] for r in res), 'leaves': sum(r['leaves'] for r in res), 'queries_unsat': sum(r['unsat'] for r in res),
         'functions_encoded': sorted(set(f for r in res for f in r.get('functions', [])))[:80],
         'bounds': {'dates': 'every local date containing a zic discontinuity of the zone in 2000..2049 (in the offset before or after it), '
-                            'the days next to it, and seed-drawn ordinary dates; capped at 16 (quick) / 18 (thorough) seed-drawn dates per zone',
+                            'the days next to it, and seed-drawn ordinary dates; capped at 16 (quick) / 18 (thorough) seed-drawn dates per zone, plus always 2000-01-01, 2000-01-02, 2049-12-30, 2049-12-31',
                    'time_of_day': 'all 86400 seconds, symbolic', 'zones': 'quick: seed-drawn 24 extended + 10 basic plus, per database, one zone with a discontinuity in each calendar month; thorough: all', 'history': 'the processor is primed with an instant 300 days earlier before the resolution'},
         'outside_bounds': ['dates not selected (far from any transition, apart from the drawn ones)', 'wall times in 1999 / 2050'],
     }
